@@ -38,10 +38,12 @@ type world struct {
 	hash uint64
 	ops  int
 	bulk int
+	q    quietState
 }
 
 func (w *world) new(k kind, name string) *subject {
 	s := newSubject(w.c, k, name)
+	s.q = &w.q
 	w.subs = append(w.subs, s)
 	return s
 }
@@ -220,7 +222,19 @@ func lockstepCase(c *ev.Case) {
 		return
 	}
 	nops := rng.Pick(8, 20, 40, 90)
+	quietCase := rng.Chance(1, 3)
 	for i := 0; i < nops; i++ {
+		if w.q.left > 0 {
+			w.q.left--
+			if w.q.left == 0 {
+				c.Add("quiet_windows_closed", 1)
+				if !w.verifyAll("after-unobserved-operations") {
+					return
+				}
+			}
+		} else if quietCase && rng.Chance(1, 4) {
+			w.q.left = rng.Range(2, 7)
+		}
 		g, o := A, B
 		if rng.Chance(1, 3) {
 			g, o = B, A
@@ -382,12 +396,16 @@ func lockstepCase(c *ev.Case) {
 		if !w.verifyAll("") {
 			return
 		}
-		if rng.Chance(1, 6) {
+		if w.q.left == 0 && rng.Chance(1, 6) {
 			s := w.subs[rng.Intn(len(w.subs))]
 			if !s.deepEnumerate("") {
 				return
 			}
 		}
+	}
+	w.q.left = 0
+	if !w.verifyAll("end") {
+		return
 	}
 	for _, s := range w.subs {
 		if !s.deepEnumerate("") {
@@ -437,8 +455,9 @@ func main() {
 		"far_value_probes": 6000, "far_value_removes": 8000,
 		"grow_extended": 40000, "grow_extended_nonempty": 10000, "grow_noop": 60000, "cap_calls": 35000,
 		"clones_nonempty": 25000, "clone_then_source_mutated": 30000, "clone_then_clone_mutated": 30000,
-		"bystander_checks":  2500000,
-		"enumerations_iter": 2000000, "enumerations_range": 1500000, "enumerations_all": 700000,
+		"bystander_checks":     2500000,
+		"quiet_windows_closed": 3000,
+		"enumerations_iter":    2000000, "enumerations_range": 1500000, "enumerations_all": 700000,
 		"enumerated_values": 25000000,
 		"enum_empty_set":    300000, "enum_empty_set_with_capacity": 250000, "enum_member_0": 300000,
 		"enum_63_to_64_adjacent": 400000, "enum_skips_empty_word": 350000, "enum_trailing_empty_words": 600000,
